@@ -65,13 +65,17 @@ type MirroredBuffer struct {
 //
 // It is safe to call NewMirroredBuffer concurrently.
 func NewMirroredBuffer(size int, prefault bool) (b *MirroredBuffer, err error) {
+	// created is the buffer to tear down if the constructor fails. The named
+	// result b cannot be used for that: `return nil, err` sets it to nil before
+	// the deferred function runs.
+	var created *MirroredBuffer
 	defer func() {
 		// NOTE: We must ensure the mapping is destroyed in case the constructor
 		// fails. This means you should never write `err :=` below. Always write
 		// `err = `. You can safely return a new error (like with `fmt.Errorf`)
 		// - it will get assigned to the error value defined above.
-		if err != nil && b != nil {
-			_ = b.Destroy()
+		if err != nil && created != nil {
+			_ = created.Destroy()
 		}
 	}()
 
@@ -92,6 +96,7 @@ func NewMirroredBuffer(size int, prefault bool) (b *MirroredBuffer, err error) {
 		tail: 0,
 		used: 0,
 	}
+	created = b
 
 	// TODO location should be logged to syslog
 	directory := "/dev/shm"
